@@ -133,15 +133,15 @@ func (u *setUniverse) New() Inst {
 		u.cmpF = cmpInt(u.cmp)
 	}
 	var probe []int
-	for v := 0; v <= u.n+1; v++ {
+	for v := -1; v <= u.n; v++ {
 		probe = append(probe, v)
 	}
 	return &setInst{kind: u.kind, cmp: u.cmp, s: newSet(u.kind, u.cmpF), probe: probe, cmpF: u.cmpF}
 }
 func (u *setUniverse) Inside(x Inst) bool { return true }
 func (u *setUniverse) Calls(x Inst) []Call {
-	var vals []int
-	for v := 1; v <= u.n; v++ {
+	var vals []int // elements 0..n-1 (0 is the Go zero value)
+	for v := 0; v < u.n; v++ {
 		vals = append(vals, v)
 	}
 	var cs []Call
@@ -151,9 +151,9 @@ func (u *setUniverse) Calls(x Inst) []Call {
 		}
 		cs = append(cs, Call{Op: "Add", Vs: t}, Call{Op: "Remove", Vs: t}, Call{Op: "Contains", Vs: t})
 	}
-	cs = append(cs, Call{Op: "Remove", Vs: []int{u.n + 1}}, Call{Op: "Contains", Vs: []int{1, u.n + 1}},
+	cs = append(cs, Call{Op: "Remove", Vs: []int{u.n}}, Call{Op: "Contains", Vs: []int{1, u.n}}, Call{Op: "Remove", Vs: []int{-1}},
 		Call{Op: "Clear"}, Call{Op: "Values"}, Call{Op: "Size"}, Call{Op: "Empty"}, Call{Op: "String"},
-		Call{Op: "New", Vs: []int{2, 1, 2}}, Call{Op: "New", Vs: []int{}})
+		Call{Op: "New", Vs: []int{2, 0, 2}}, Call{Op: "New", Vs: []int{}})
 	return cs
 }
 
@@ -166,13 +166,13 @@ type setRandom struct {
 func (u *setRandom) New() Inst {
 	f := cmpInt(u.cmp)
 	var probe []int
-	for v := 0; v <= u.n+1; v++ {
+	for v := -1; v <= u.n; v++ {
 		probe = append(probe, v)
 	}
 	return &setInst{kind: u.kind, cmp: u.cmp, s: newSet(u.kind, f), probe: probe, cmpF: f}
 }
 func (u *setRandom) Rand(x Inst, r *rand.Rand) Call {
-	vs := randVals(r, u.n+1, 5)
+	vs := randVals0(r, u.n+1, 5)
 	switch p := r.Intn(20); {
 	case p < 8:
 		return Call{Op: "Add", Vs: vs}
